@@ -503,6 +503,8 @@ func replayCase(sub string, raw json.RawMessage) string {
 			return "bad replay: " + err.Error()
 		}
 		return checkSync(c)
+	case sub == "regex" || sub == "regex-random":
+		return replayRegex(raw)
 	case sub == "sync-ast":
 		var c astCase
 		if err := json.Unmarshal(raw, &c); err != nil {
@@ -534,6 +536,7 @@ func TestC03(t *testing.T) {
 	universeIntact(t, "models")
 	runSync(t)
 	universeIntact(t, "sync")
+	runRegex(t)
 }
 
 // universeIntact: the shared universe values are passed to gojq by reference;
